@@ -154,7 +154,12 @@ pub type RealExecutor = Executor<Database<OnChain>, Database<Relayer>>;
 #[derive(Clone, Copy, Debug, PartialEq, Eq)]
 pub enum Strategy {
     Native,
+    /// `Executor::wasm`: the WASM module embedded in the build is always used
     Wasm,
+    /// an executor whose *native version differs from the blocks' version*, so
+    /// that it takes the "uploaded bytecode" path (`get_module(block_version)`);
+    /// needs `SessionConfig::uploaded_wasm`
+    UploadedWasm,
 }
 
 /// Parameters of a session. All limits are deliberately small so they bind.
@@ -177,6 +182,9 @@ pub struct SessionConfig {
     pub strategy: Strategy,
     /// upper bound on transactions planned per block
     pub max_txs_per_block: usize,
+    /// store the build's WASM bytecode as the uploaded state transition
+    /// function of the current version in the genesis state
+    pub uploaded_wasm: bool,
 }
 
 impl SessionConfig {
@@ -198,6 +206,7 @@ impl SessionConfig {
             extra_plain_coins: 0,
             strategy: Strategy::Native,
             max_txs_per_block: 12,
+            uploaded_wasm: false,
         }
     }
 
@@ -220,6 +229,7 @@ impl SessionConfig {
             extra_plain_coins: n_coins,
             strategy: Strategy::Native,
             max_txs_per_block: n_coins,
+            uploaded_wasm: false,
         }
     }
 }
@@ -360,19 +370,27 @@ fn fork_relayer(db: &Database<Relayer>) -> Database<Relayer> {
     Database::<Relayer>::new(Arc::new(store))
 }
 
+/// Executor configuration for a strategy.
+pub fn exec_config(strategy: Strategy, forbid_fake_coins: bool) -> ExecConfig {
+    ExecConfig {
+        forbid_fake_coins_default: forbid_fake_coins,
+        allow_syscall: false,
+        native_executor_version: match strategy {
+            Strategy::UploadedWasm => Some(LATEST_STATE_TRANSITION_VERSION + 1),
+            _ => None,
+        },
+        allow_historical_execution: false,
+    }
+}
+
 fn make_executor(
     on_chain: &Database<OnChain>,
     relayer: &Database<Relayer>,
     cfg: &SessionConfig,
 ) -> RealExecutor {
-    let config = ExecConfig {
-        forbid_fake_coins_default: cfg.forbid_fake_coins,
-        allow_syscall: false,
-        native_executor_version: None,
-        allow_historical_execution: false,
-    };
+    let config = exec_config(cfg.strategy, cfg.forbid_fake_coins);
     match cfg.strategy {
-        Strategy::Native => Executor::native(on_chain.clone(), relayer.clone(), config),
+        Strategy::Native | Strategy::UploadedWasm => Executor::native(on_chain.clone(), relayer.clone(), config),
         Strategy::Wasm => Executor::wasm(on_chain.clone(), relayer.clone(), config),
     }
 }
@@ -576,6 +594,26 @@ impl ChainSession {
                 });
             }
 
+            if cfg.uploaded_wasm {
+                use fuel_core_storage::tables::{
+                    StateTransitionBytecodeVersions,
+                    UploadedBytecodes,
+                };
+                use fuel_core_types::fuel_vm::UploadedBytecode;
+                let mut root = [0u8; 32];
+                root[0] = 0x5F;
+                let root = Bytes32::new(root);
+                tx.storage_as_mut::<UploadedBytecodes>()
+                    .insert(
+                        &root,
+                        &UploadedBytecode::Completed(fuel_core_upgradable_executor::WASM_BYTECODE.to_vec()),
+                    )
+                    .expect("uploaded bytecode");
+                tx.storage_as_mut::<StateTransitionBytecodeVersions>()
+                    .insert(&LATEST_STATE_TRANSITION_VERSION, &root)
+                    .expect("stf version");
+            }
+
             // ---- genesis block (height 0) so that the database height is set
             let mut block = Block::default();
             block.header_mut().set_block_height(0u32.into());
@@ -735,6 +773,32 @@ impl ChainSession {
         let mut cfg = self.cfg.clone();
         cfg.strategy = strategy;
         make_executor(&self.on_chain, &self.relayer, &cfg)
+    }
+
+    /// Like [`executor_for`] with an explicit `forbid_fake_coins` config default.
+    pub fn executor_with(&self, strategy: Strategy, forbid_fake_coins_default: bool) -> RealExecutor {
+        let mut cfg = self.cfg.clone();
+        cfg.strategy = strategy;
+        cfg.forbid_fake_coins = forbid_fake_coins_default;
+        make_executor(&self.on_chain, &self.relayer, &cfg)
+    }
+
+    /// `Executor::dry_run` (the API entry point with the utxo-validation
+    /// override) of `txs` on top of the current state with the plan's header data.
+    pub fn dry_run_on(
+        &self,
+        executor: &RealExecutor,
+        plan: &BlockPlan,
+        txs: Vec<Transaction>,
+        forbid_fake_coins: Option<bool>,
+    ) -> Result<fuel_core_types::services::executor::DryRunResult, ExecutorError> {
+        let components = Components {
+            header_to_produce: self.header_for(plan),
+            transactions_source: txs,
+            coinbase_recipient: plan.coinbase_recipient,
+            gas_price: plan.gas_price,
+        };
+        executor.dry_run(components, forbid_fake_coins, None, false)
     }
 
     /// Produce (or dry-run, if `dry_run`) on an explicit executor.
